@@ -529,11 +529,16 @@ func (e *ErrPlan) build(ctx context.Context) error {
 
 // any is the detail as the handler attaches it. Kind 4 is an Any whose
 // message type is not linked into this binary - what a gateway holds when it
-// passes on the details of an upstream error.
+// passes on the details of an upstream error. Kind 5 is a linked message that
+// protojson refuses to spell out.
 func (d DetailPlan) any() (*anypb.Any, error) {
 	if d.Kind == 4 {
 		v := protowire.AppendString(protowire.AppendTag(nil, 1, protowire.BytesType), fmt.Sprintf("upstream %x", d.Data))
 		return &anypb.Any{TypeUrl: "type.googleapis.com/sim.upstream.v1.NotLinkedHere", Value: v}, nil
+	}
+	if d.Kind == 5 {
+		// linked, valid in binary, but without a JSON form: a Value with no kind set
+		return anypb.New(&structpb.Value{})
 	}
 	return anypb.New(d.message())
 }
